@@ -28,7 +28,7 @@ fn occurrences(a: &Ast, out: &mut Vec<(String, Cls)>) {
             occurrences(l, out);
             occurrences(r, out);
         },
-        Ast::Pre(_, e) => occurrences(e, out),
+        Ast::Pre(_, e) | Ast::Partial(_, e) => occurrences(e, out),
         Ast::Asg(_, x, e) => {
             out.push((x.clone(), Cls::Write));
             occurrences(e, out);
@@ -184,6 +184,73 @@ fn check_ast(ast: &Ast, st: &mut Stats) {
                 return;
             },
         }
+    }
+
+    // 1b. every way of consuming an iterator agrees with next(): after k calls of next(), the rest
+    // obtained through fold / for_each / last / count / nth is the matching suffix
+    {
+        let expect = names(&occ, &all);
+        let n = expect.len();
+        for k in 0..=n.min(3) {
+            let r = guarded(|| {
+                let mut problems: Vec<String> = Vec::new();
+                let mut it = tree.iter_identifiers();
+                for _ in 0..k {
+                    it.next();
+                }
+                let mut folded: Vec<String> = Vec::new();
+                it.for_each(|s| folded.push(s.to_string()));
+                if folded != expect[k.min(n)..] {
+                    problems.push(format!("after {} next(): for_each yields {:?}, expected {:?}", k, folded, &expect[k.min(n)..]));
+                }
+                let mut it = tree.iter_identifiers();
+                for _ in 0..k {
+                    it.next();
+                }
+                let last = it.last().map(String::from);
+                let want_last = if k < n { expect.last().cloned() } else { None };
+                if last != want_last {
+                    problems.push(format!("after {} next(): last() is {:?}, expected {:?}", k, last, want_last));
+                }
+                let mut it = tree.iter_variable_identifiers();
+                for _ in 0..k {
+                    it.next();
+                }
+                let vexp = names(&occ, &[Cls::Read, Cls::Write]);
+                let cnt = it.count();
+                if cnt != vexp.len().saturating_sub(k) {
+                    problems.push(format!("iter_variable_identifiers after {} next(): count() is {}, expected {}", k, cnt, vexp.len().saturating_sub(k)));
+                }
+                let got_nth = tree.iter_identifiers().nth(k).map(String::from);
+                if got_nth != expect.get(k).cloned() {
+                    problems.push(format!("nth({}) is {:?}, expected {:?}", k, got_nth, expect.get(k)));
+                }
+                let node_count = tree.iter().count();
+                let mut it = tree.iter();
+                let mut c2 = 0;
+                while it.next().is_some() {
+                    c2 += 1;
+                }
+                if node_count != c2 {
+                    problems.push(format!("Node::iter().count() is {}, stepping with next() gives {}", node_count, c2));
+                }
+                problems
+            });
+            st.evaluations += 5;
+            match r {
+                Err(p) => {
+                    st.violation(mk("panic", "iterator adaptors return".into(), format!("panic at {}: {}", p.location, p.message)));
+                    return;
+                },
+                Ok(problems) => {
+                    if let Some(p) = problems.first() {
+                        st.violation(mk("iterator-consumption-disagrees-with-next", format!("identifiers {:?}", expect), p.clone()));
+                        return;
+                    }
+                },
+            }
+        }
+        st.count("iterator-protocol-checks");
     }
 
     // 2. an unknown-identifier error names a listed identifier
@@ -394,7 +461,7 @@ pub fn run(cfg: &Cfg) -> Report {
     Report {
         property: ID,
         level: "exploration",
-        rule: format!("every AST with <= {k} operator nodes over the full operator alphabet (identifiers in every leaf, assignment-target and function position, named in source order) plus {nseq} sequence-shaped ASTs (`,`/`;` skeletons with <= {seq_n} separators over 11 element shapes incl. absent elements, `()`, nested sequences); per AST: 5 immutable + 5 mutable iterators against the occurrence list of the AST, unknown-identifier errors against the lists, and every swap of two variable names / two function names / a name with a fresh name applied through the mutable iterators and to the context. Non-trivial = at least two identifier occurrences; distinct by normalised tree"),
+        rule: format!("every AST with <= {k} operator nodes over the full operator alphabet (identifiers in every leaf, assignment-target and function position, named in source order) plus {nseq} sequence-shaped ASTs (`,`/`;` skeletons with <= {seq_n} separators over 11 element shapes incl. absent elements, `()`, nested sequences); per AST: 5 immutable + 5 mutable iterators against the occurrence list of the AST, every consumption style (for_each/fold, last, count, nth after 0..3 calls of next()) against next(), unknown-identifier errors against the lists, and every swap of two variable names / two function names / a name with a fresh name applied through the mutable iterators and to the context. Non-trivial = at least two identifier occurrences; distinct by normalised tree"),
         nontrivial_set: "nontrivial",
         exhaustive: true,
         bound_completed: format!("AST size {k}; sequences with {seq_n} separators"),
